@@ -397,3 +397,7 @@ def _fin(res, sc, outs, closer_phase):
 
 def sample_view(sc, r):
     return {k: sc.get(k) for k in ("outcomes", "reconnect", "via", "on_reconnect", "dispatcher", "closer", "ping", "policy", "sender")}
+
+
+# round 7 summary for the evidence file
+RULE = RULE + '  Round 7: the hung peer of a ping timeout may be torn down by a reset (not only by end of stream) during the reconnect wait: shutdown(2) on that socket reports ENOTCONN.'
